@@ -93,7 +93,6 @@ def check_structure(ctx, cfg, t, label):
     want_keys = o[ki + 1].split(",") if len(o) > ki + 1 else []
     got_keys = [k for k in t.meta if k in SIGNAL_KEYS_O + SIGNAL_KEYS_R]
     case = {"run": label, "survivors": surv, "columns": list(t.colnames), "integral_keys": got_keys}
-    source_tie(ctx, cfg, t, label, surv)
     if list(t.colnames) != want_cols or got_keys != want_keys:
         # the Lean model describes the documented structure; is the property itself violated?
         ctx.disagree("C14.structure", {**case, "model_columns": want_cols, "model_keys": want_keys})
@@ -488,6 +487,369 @@ RULE += ("; (h) every finished table against itself: per enabled channel, sum(in
          "and data bytes identical to each other and to the in-process run")
 
 
+# ----------------------------------------------------------------------------------------------------------------------------
+# (j) the table is a function of (configuration, seed) ONLY.  Property text: "With the global random generator seeded, a full
+# simulation produces a bit-identical results table ... and switching the radio (optical) channel off leaves every optical (radio)
+# column and header value unchanged", quantified "for all seeds and all configurations".  compute() has four arguments that are NOT
+# part of the configuration (verbose, to_plot, output_file, write_stages); the command line always passes verbose=True and an output
+# name.  Every stream above calls compute(config) plainly.  Here, for configurations anywhere in the cross product and ALL FOUR channel
+# combinations, the same seeded run is made plainly and under every one of those arguments (alone, and combined as the command line
+# combines them): each table must be identical to the plain one (ordered columns, dtypes, ordered header keys, values, data bytes;
+# only simTime excluded), and the channel-isolation comparison is repeated UNDER each option set.  Runs are made in child
+# interpreters (plots need a head-less matplotlib; files go to the child's own directory), in parallel with the streams above.
+OPTION_SETS = ("plain", "verbose", "plots", "outfile", "stages", "cli")
+CHANNELS = ((True, True), (True, False), (False, True), (False, False))
+
+
+def _option_kwargs(name, plots, subset, directory, tag):
+    import os
+    return {"plain": {},
+            "verbose": {"verbose": True},
+            "plots": {"to_plot": list(plots)},
+            "outfile": {"output_file": os.path.join(directory, f"{tag}-out.fits")},
+            "stages": {"output_file": os.path.join(directory, f"{tag}-stages.fits"), "write_stages": True},
+            "cli": {"verbose": True, "to_plot": list(subset), "output_file": os.path.join(directory, f"{tag}-cli.fits"), "write_stages": True}}[name]
+
+
+def _opts_child(job_path, out_path):
+    """Entry point of a child interpreter: one base configuration, 4 channel combinations x OPTION_SETS."""
+    import json
+    import os
+    import dask
+    import matplotlib
+    matplotlib.use("Agg")
+    import matplotlib.pyplot as plt
+    import nuspacesim as nss
+    from nuspacesim.utils.plot_function_registry import registry
+    job = json.loads(open(job_path).read())
+    plots = sorted(registry)
+    rs = np.random.Generator(np.random.PCG64(job["seed"]))
+    subset = [p for p in plots if rs.integers(0, 2)] or plots[:1]
+    res, impure, unplottable = {}, [], []
+
+    def attempt(opt, rad, name, kw):
+        cfg = nss.NssConfig.model_validate_json(job["cfg"])
+        cfg.detector.optical.enable, cfg.detector.radio.enable = opt, rad
+        before = config_snapshot(cfg)
+        try:
+            np.random.seed(job["seed"])
+            with quiet_stdout(), dask.config.set(scheduler="synchronous"):
+                t = nss.compute(cfg, **kw)
+            fp = fingerprint(t)
+        except Exception as e:  # noqa
+            fp = {"error": f"{type(e).__name__}: {str(e)[:120]}"}
+        plt.close("all")
+        d = snapshot_diff(before, cfg)
+        if d:
+            impure.append({"optical": opt, "radio": rad, "options": name, "difference": d})
+        return fp
+    for opt, rad in CHANNELS:
+        for name in OPTION_SETS:
+            kw = _option_kwargs(name, plots, subset, os.path.dirname(out_path), f"{int(opt)}{int(rad)}")
+            fp = attempt(opt, rad, name, kw)
+            if "error" in fp and kw.get("to_plot") and "error" not in res[f"{int(opt)}{int(rad)}/plain"]:
+                # The property is about the TABLE of a run, not about whether every figure can be drawn from it: a plotting function
+                # that cannot draw this run's data on the unchanged code (taus_histogram: "Too many bins for data range" for the
+                # near-identical tau energies of a mono-energetic Target run) is left out, by name, found by drawing each plot alone;
+                # the run is repeated with the remaining plots and reported if it still does not return the plain table.
+                bad = [q for q in kw["to_plot"] if "error" in attempt(opt, rad, name, {"to_plot": [q]})]
+                unplottable.append({"optical": opt, "radio": rad, "options": name, "plots": bad, "error": fp["error"]})
+                if bad and len(bad) < len(kw["to_plot"]):
+                    fp = attempt(opt, rad, name, {**kw, "to_plot": [q for q in kw["to_plot"] if q not in bad]})
+                    fp.setdefault("plots_left_out", bad) if "error" not in fp else None
+            res[f"{int(opt)}{int(rad)}/{name}"] = fp
+    with open(out_path, "w") as f:
+        json.dump({"package": nss.__file__, "plots": plots, "subset": subset, "fingerprints": res, "impure": impure, "unplottable": unplottable}, f)
+
+
+def opts_launch(ctx):
+    import json
+    import os
+    import subprocess
+    import tempfile
+    from pathlib import Path
+    rng = np.random.Generator(np.random.PCG64([ctx.seed, 1403]))   # own stream: the existing streams keep their cases
+    pick = lambda xs: xs[int(rng.integers(0, len(xs)))]  # noqa: E731
+    nchild = 4 if not ctx.thorough else 10
+    tmp = Path(tempfile.mkdtemp(prefix="c14-opts-"))
+    props = str(Path(__file__).resolve().parent)
+    harness = str(Path(__file__).resolve().parent.parent)
+    children = []
+    for i in range(nchild):
+        mode = ("Diffuse", "Target")[i % 2]
+        cfg = make_cfg(mode, pick(("mono", "power")), pick(("none", "mono", "map")), True, True, pick((33.0, 525.0)),
+                       int(rng.integers(150, 300)) * (1 if mode == "Diffuse" else 4), int(rng.integers(1, 13)))
+        if mode == "Diffuse" and cfg.simulation.spectrum.id == "monospectrum":
+            cfg.simulation.spectrum.log_nu_energy = float(pick((9.0, 9.5, 10.0)))
+        # trigger thresholds are configuration: the default ones and low ones, so that runs in which events of both channels pass occur
+        cfg.detector.optical.photo_electron_threshold = float(pick((10.0, 1.0)))
+        cfg.detector.radio.snr_threshold = float(pick((5.0, 0.1, 0.0)))
+        if mode == "Target":
+            cfg.simulation.target.source_RA = float(rng.uniform(0.0, 2 * np.pi))
+            cfg.simulation.target.source_DEC = float(rng.uniform(-0.4, 0.4))
+        seed = int(rng.integers(1, 2 ** 31))
+        d = tmp / f"c{i}"
+        d.mkdir()
+        (d / "job.json").write_text(json.dumps({"cfg": cfg.model_dump_json(), "seed": seed}))
+        env = dict(os.environ)
+        env.update({"MPLBACKEND": "Agg", "PYTHONPATH": os.pathsep.join([harness, props] + [x for x in env.get("PYTHONPATH", "").split(os.pathsep) if x])})
+        code = f"import C14; C14._opts_child({str(d / 'job.json')!r}, {str(d / 'out.json')!r})"
+        p = subprocess.Popen([sys.executable, "-c", code], cwd=str(d), env=env, stdout=subprocess.DEVNULL, stderr=subprocess.PIPE)
+        children.append({"proc": p, "out": d / "out.json", "cfg": json.loads(cfg.model_dump_json()), "seed": seed})
+    return {"children": children, "tmp": tmp}
+
+
+def opts_collect(ctx, op):
+    import json
+    import shutil
+    import nuspacesim
+    for ch in op["children"]:
+        sim = ch["cfg"]["simulation"]
+        lab = f"{sim['mode']}/{sim['spectrum']['id']}/{sim['cloud_model']['id']}/alt={ch['cfg']['detector']['initial_position']['altitude']}/thrown={sim['thrown_events']}/seed{ch['seed']}"
+        try:
+            _, err = ch["proc"].communicate(timeout=900)
+        except Exception:  # noqa
+            ch["proc"].kill()
+            raise InfraError(f"C14 options child {lab} did not finish")
+        if ch["proc"].returncode != 0 or not ch["out"].exists():
+            raise InfraError(f"C14 options child {lab} failed: {err.decode(errors='replace')[-300:]}")
+        res = json.loads(ch["out"].read_text())
+        if res["package"] != nuspacesim.__file__:
+            raise InfraError(f"C14 options child imported {res['package']}, not {nuspacesim.__file__}")
+        fps = res["fingerprints"]
+        described = {n: {k: (v if not k == "output_file" else "<a new file>") for k, v in _option_kwargs(n, res["plots"], res["subset"], "", "").items()}
+                     for n in OPTION_SETS}
+        base = {"run": lab, "np_random_seed": ch["seed"], "config": ch["cfg"]}
+        ctx.count("options_children")
+        for un in res["unplottable"]:
+            ctx.count("options_runs_with_a_plot_that_cannot_be_drawn")
+            ctx.notes.append(f"{lab} optical={un['optical']} radio={un['radio']}: plotting functions {un['plots']} raise on this run's data ({un['error'][:60]}); left out")
+        for im in res["impure"]:
+            ctx.violation("compute", "caller-configuration-modified", f"compute() changed the configuration object it was given: {im['difference']}",
+                          {**base, **im, "arguments": described[im["options"]]})
+        hdr = lambda fp, k: fp.get("header", {}).get(k)  # noqa: E731
+        def passing(fp, k):
+            m = __import__("re").search(r"^\(?\s*(?:np\.\w+\()?\s*(\d+)", hdr(fp, k) or "")   # "(np.int64(4), 'comment')"
+            return int(m.group(1)) if m else 0
+        for opt, rad in CHANNELS:
+            cb = f"{int(opt)}{int(rad)}"
+            plain = fps[f"{cb}/plain"]
+            chan = {"optical": opt, "radio": rad}
+            for name in OPTION_SETS[1:]:
+                fp = fps[f"{cb}/{name}"]
+                ctx.case(("options", lab, cb, name) if plain.get("rows") and (opt or rad) else None)
+                ctx.count(f"options_{name}_runs")
+                d = fingerprint_diff(plain, fp)
+                if d:
+                    ctx.violation("compute", "non-configuration-argument-changes-table",
+                                  f"the same seeded configuration gives a different table when compute() is called with {sorted(described[name])}: {d}",
+                                  {**base, **chan, "arguments": described[name], "difference": d, "compared_with": "compute(config)",
+                                   "columns_plain": plain.get("columns"), "columns_with_arguments": fp.get("columns")})
+        both_plain = fps["11/plain"]
+        if "error" not in both_plain:
+            try:
+                ctx.count("options_two_channel_runs_with_passing_optical_events", int(passing(both_plain, "ONEVPASS") > 0))
+                ctx.count("options_two_channel_runs_with_2+_passing_optical_events", int(passing(both_plain, "ONEVPASS") > 1))
+                ctx.count("options_two_channel_runs_with_passing_radio_events", int(passing(both_plain, "RNEVPASS") > 0))
+            except Exception:  # noqa  (bookkeeping only)
+                pass
+        # channel isolation UNDER each option set (and plainly, in the child's fresh interpreter)
+        for name in OPTION_SETS:
+            both, o_only, r_only = fps[f"11/{name}"], fps[f"10/{name}"], fps[f"01/{name}"]
+            if any("error" in x for x in (both, o_only, r_only)):
+                continue   # reported above against the plain run (or, for the plain run, by the in-process streams)
+            for other, own_cols, own_keys, cls, word in ((o_only, UP + ["numPEs", "costhetaChEff", "tmcintopt"], SIGNAL_KEYS_O, "optical-depends-on-radio-flag", "radio"),
+                                                         (r_only, UP + ["EFields", "tmcintrad"], SIGNAL_KEYS_R, "radio-depends-on-optical-flag", "optical")):
+                ctx.case(("options-isolation", lab, name, word) if both.get("rows") else None)
+                why = ""
+                if both["rows"] != other["rows"]:
+                    why = "row count"
+                for c in own_cols:
+                    if not why and c in both["columns"] and (c not in other["columns"] or both["data"][c] != other["data"][c]):
+                        why = f"column {c}"
+                for k in own_keys:
+                    if not why and hdr(both, k) != hdr(other, k):
+                        why = f"header {k}"
+                if why:
+                    ctx.violation("compute", cls + "-under-arguments", f"with compute() called with {sorted(described[name]) or 'no extra arguments'}, switching {word} off changed a value the other channel owns: {why}",
+                                  {**base, "arguments": described[name], "difference": why})
+    shutil.rmtree(op["tmp"], ignore_errors=True)
+
+
+# ----------------------------------------------------------------------------------------------------------------------------
+# (k) input purity.  The property speaks of runs "for all configurations": the configuration is the INPUT of a run, and the relations
+# the property states between runs (same configuration under another scheduler; same configuration with one channel flag changed) are
+# relations between values of that input.  They mean what they say only if a run leaves the caller's configuration object as it found
+# it.  EVERY run the in-process streams make through run_compute (the whole cross product, every channel mix, every scheduler, zero- and
+# few-survivor runs, ...) and every run of the option children is bracketed by a snapshot: the deep model_dump() (None sections
+# included) must be equal before and after, and every nested section / container must still be the SAME object.
+def config_snapshot(cfg):
+    from pydantic import BaseModel
+    objs = {}
+
+    def walk(o, path):
+        if isinstance(o, BaseModel):
+            objs[path] = o
+            for name in type(o).model_fields:
+                walk(getattr(o, name, None), path + (name,))
+        elif isinstance(o, (list, tuple, dict, set)):
+            objs[path] = o
+            for k, x in (o.items() if isinstance(o, dict) else enumerate(o)):
+                walk(x, path + (k,))
+    walk(cfg, ())
+    return {"dump": cfg.model_dump(), "objects": objs}    # the objects themselves are kept alive: identity is compared with `is`
+
+
+def snapshot_diff(before, cfg):
+    """'' if the configuration object is what it was when `before` was taken; else the first difference, as text."""
+    def first(a, b, path):
+        if isinstance(a, dict) and isinstance(b, dict):
+            for k in list(a) + [k for k in b if k not in a]:
+                if k not in a or k not in b:
+                    return f"{'.'.join(map(str, path + (k,)))}: {'added' if k not in a else 'removed'}"
+                d = first(a[k], b[k], path + (k,))
+                if d:
+                    return d
+            return ""
+        if type(a) is not type(b) or repr(a) != repr(b):
+            return f"{'.'.join(map(str, path))}: {a!r} before the run, {b!r} after it"
+        return ""
+    d = first(before["dump"], cfg.model_dump(), ())
+    if d:
+        return d
+    after = config_snapshot(cfg)["objects"]
+    for path, o in before["objects"].items():
+        if path not in after or after[path] is not o:
+            return f"{'.'.join(map(str, path)) or 'the configuration'}: replaced by another object (equal values)"
+    extra = [p for p in after if p not in before["objects"]]
+    return f"{'.'.join(map(str, extra[0]))}: new nested object" if extra else ""
+
+
+PURITY = {"runs": 0, "findings": []}
+
+
+def _purity_checked(f):
+    def run_compute_(cfg, seed, scheduler=None, **kw):
+        before = config_snapshot(cfg)
+        try:
+            return f(cfg, seed, scheduler, **kw)
+        finally:
+            PURITY["runs"] += 1
+            d = snapshot_diff(before, cfg)
+            if d and len(PURITY["findings"]) < 20:
+                PURITY["findings"].append({"difference": d, "np_random_seed": seed, "scheduler": scheduler if isinstance(scheduler, (str, type(None))) else "exploring",
+                                           "config": before["dump"]})
+    return run_compute_
+
+
+run_compute = _purity_checked(run_compute)   # every in-process run below and above goes through the bracket
+
+
+def purity_flush(ctx):
+    ctx.count("purity_bracketed_runs", PURITY["runs"])
+    ctx.case(("input-purity",) if PURITY["runs"] else None, None, n=PURITY["runs"])
+    for f in PURITY["findings"]:
+        ctx.violation("compute", "caller-configuration-modified", f"compute() changed the configuration object it was given: {f['difference']}", f)
+    PURITY["runs"], PURITY["findings"] = 0, []
+
+
+# (l) HISTORIES of one configuration object.  Same clause as (k), seen from the results: a table is a function of the configuration's
+# VALUES and the seed, not of what the configuration object was used for before.  One NssConfig object is taken through a sequence of
+# runs with edits in between (switch a channel off / on, change the number of thrown events, replace the spectrum / the cloud model,
+# change a threshold or the altitude, no edit at all); after every step the table must be identical (all columns, all header values) to
+# the table of a FRESH configuration object built from scratch with the same values and run with the same seed.  The sequences
+# "radio off, then on", "optical off, then on" and "edit a field, run again" are always present; the rest are random.
+def _edit_pool():
+    S = __import__("nuspacesim").config.Simulation
+
+    def setter(path, make):
+        def apply(cfg):
+            o = cfg
+            for p in path[:-1]:
+                o = getattr(o, p)
+            setattr(o, path[-1], make())
+        return apply
+    P = {}
+    for flag in (True, False):
+        P[f"detector.radio.enable={flag}"] = setter(("detector", "radio", "enable"), lambda flag=flag: flag)
+        P[f"detector.optical.enable={flag}"] = setter(("detector", "optical", "enable"), lambda flag=flag: flag)
+    for n in (60, 90, 140):
+        P[f"simulation.thrown_events*={n}"] = n    # scaled by the mode's factor below
+    P["simulation.spectrum=Mono(9.5)"] = setter(("simulation", "spectrum"), lambda: S.MonoSpectrum(log_nu_energy=9.5))
+    P["simulation.spectrum=Power(2.2,8,10)"] = setter(("simulation", "spectrum"), lambda: S.PowerSpectrum(index=2.2, lower_bound=8.0, upper_bound=10.0))
+    P["simulation.cloud_model=NoCloud"] = setter(("simulation", "cloud_model"), lambda: S.NoCloud())
+    P["simulation.cloud_model=MonoCloud(5)"] = setter(("simulation", "cloud_model"), lambda: S.MonoCloud(altitude=5.0))
+    P["simulation.cloud_model=PressureMap(6)"] = setter(("simulation", "cloud_model"), lambda: S.PressureMapCloud(month=6))
+    P["detector.initial_position.altitude=33"] = setter(("detector", "initial_position", "altitude"), lambda: 33.0)
+    P["detector.initial_position.altitude=525"] = setter(("detector", "initial_position", "altitude"), lambda: 525.0)
+    P["detector.optical.photo_electron_threshold=1"] = setter(("detector", "optical", "photo_electron_threshold"), lambda: 1.0)
+    P["detector.radio.snr_threshold=0.1"] = setter(("detector", "radio", "snr_threshold"), lambda: 0.1)
+    P["(no edit)"] = lambda cfg: None
+    return P, setter
+
+
+def reuse_sequences(ctx):
+    rng = np.random.Generator(np.random.PCG64([ctx.seed, 1404]))   # own stream: the existing streams keep their cases
+    pick = lambda xs: xs[int(rng.integers(0, len(xs)))]  # noqa: E731
+    pool, setter = _edit_pool()
+    names = list(pool)
+    fixed = [((True, False), ["detector.radio.enable=True"]), ((False, True), ["detector.optical.enable=True"]),
+             ((True, True), [pick([n for n in names if "enable" not in n and n != "(no edit)"]), "(no edit)"]),
+             ((False, False), ["detector.radio.enable=True", "detector.optical.enable=True"])]
+    nrandom = 2 if not ctx.thorough else 10
+    seqs = fixed + [((bool(rng.integers(0, 2)), bool(rng.integers(0, 2))), [pick(names) for _ in range(3 if not ctx.thorough else 5)]) for _ in range(nrandom)]
+    for si, ((opt0, rad0), edits) in enumerate(seqs):
+        mode = ("Diffuse", "Target")[int(rng.integers(0, 2))] if si else "Diffuse"
+        factor = 1 if mode == "Diffuse" else 4
+        args = (mode, pick(("mono", "power")), pick(("none", "mono", "map")), opt0, rad0, pick((33.0, 525.0)), 100 * factor, int(rng.integers(1, 13)))
+        shared = make_cfg(*args)
+        done = []
+        for step, ename in enumerate([None] + edits):
+            if ename is not None:
+                done.append(ename)
+            seed = int(rng.integers(1, 2 ** 31))
+            fresh = make_cfg(*args)
+            for target_cfg, todo in ((shared, done[-1:] if ename is not None else []), (fresh, done)):
+                for e in todo:
+                    ed = pool[e]
+                    if isinstance(ed, int):
+                        ed = setter(("simulation", "thrown_events"), lambda n=ed * factor: n)
+                    ed(target_cfg)
+            case = {"configuration_built_by": f"make_cfg{args}", "edits_so_far": list(done), "step": step, "np_random_seed": seed,
+                    "history_of_the_reused_object": "one compute() run after the construction and after every edit"}
+            try:
+                t_fresh = run_compute(fresh, seed, "synchronous")
+            except Exception as e:  # noqa  (a combination the code refuses: not this stream's subject)
+                ctx.count("reuse_fresh_run_raised")
+                ctx.notes.append(f"re-use sequence: fresh run raised {type(e).__name__}: {str(e)[:80]} for {done}")
+                break
+            try:
+                t_shared = run_compute(shared, seed, "synchronous")
+            except Exception as e:  # noqa
+                ctx.violation("compute", "reused-configuration-object-differs", f"the run raises {type(e).__name__}: {str(e)[:100]} with a re-used configuration object but not with a fresh one of the same values", case)
+                break
+            ok, why = tables_equal(t_fresh, t_shared)
+            ok2, why2 = tables_equal(t_shared, t_fresh)
+            nontrivial = len(t_fresh) and step > 0
+            ctx.case(("reuse", si, step) if nontrivial else None)
+            ctx.count("reuse_steps")
+            ctx.count("reuse_steps_" + ("after_channel_switch" if ename and "enable" in ename else "after_other_edit" if ename and ename != "(no edit)" else "unedited"))
+            if not (ok and ok2):
+                ctx.violation("compute", "reused-configuration-object-differs",
+                              f"a configuration object that was used for earlier runs gives a different table than a fresh object with the same values and seed: {why or why2}",
+                              {**case, "difference": why or why2, "values": fresh.model_dump()})
+                break
+
+
+RULE += ("; (j) the same seeded run, all four channel combinations, with compute() called plainly and with verbose / to_plot (every registered plot) / "
+         "output_file / write_stages / the command line's combination, in child interpreters: every table identical to the plain one and channel isolation "
+         "re-evaluated under each set of arguments; (k) every run of the check bracketed by a snapshot of the caller's configuration object: deep dump "
+         "equal and nested sections the same objects afterwards; (l) sequences of runs re-using ONE configuration object with edits in between "
+         "(channels off/on, thrown events, spectrum, cloud model, thresholds, altitude, none) against fresh objects with the same values")
+ASSUMPTIONS.append("(j) is about the table: a plotting function that raises on a run's data on its own (drawn alone, same configuration and seed) is "
+                   "left out by name and counted (options_runs_with_a_plot_that_cannot_be_drawn); whether figures can be drawn is not part of C14")
+
+
 def corners(ctx):
     # corners of the cross product: a power law of index exactly 1 (its own sampling branch) is as reproducible under a seed as any
     # other spectrum; a run with BOTH channels switched off still returns its table (geometry, spectrum, tau and decay columns)
@@ -513,92 +875,13 @@ def corners(ctx):
             ctx.violation("compute", "raises", f"a run with both channels switched off raises {type(e).__name__}: {str(e)[:100]}", {"run": f"{mode_}/optical off/radio off"})
 
 
-def regen():
-    """source tie: Gen/Src/C14.lean regenerated from compute() of the working tree (harness/orchtrans.py)"""
-    import orchtrans
-    return orchtrans.regen()
-
-
-_ADDED = {}      # id(table) -> the column-name groups handed to Table.add_columns, in call order
-
-
-def source_tie_install():
-    """record, from outside, every Table.add_columns call (the writer's only way of adding columns) per table"""
-    from astropy.table import Table
-    if getattr(Table.add_columns, "_c14_recorder", False):
-        return
-    orig = Table.add_columns
-
-    def add_columns(self, cols, indexes=None, names=None, **kw):
-        if len(self.colnames) == 0:
-            _ADDED[id(self)] = []
-        out = orig(self, cols, indexes=indexes, names=names, **kw)
-        if names is not None and id(self) in _ADDED:
-            _ADDED[id(self)].append([str(n) for n in names])
-        return out
-    add_columns._c14_recorder = True
-    Table.add_columns = add_columns
-
-
-def source_tie(ctx, cfg, t, label, surv):
-    """the writer operations the reader of the source predicts (harness/orchtrans.py) against what the real compute() run did:
-    the column groups recorded call by call from Table.add_columns, and the order of the header keys the run added after the
-    ones written up front.  A difference is a broken tie (ctx.disagree), not by itself a violation."""
-    import orchtrans
-    st = ctx.extra.setdefault("source_tie", {}).setdefault("ops", {"runs_compared": 0, "with_recorded_calls": 0, "differences": []})
-    try:
-        if "_orch" not in ctx.__dict__:
-            ctx._orch = orchtrans.read()
-        d = ctx._orch
-        want = orchtrans.predict(d, cfg.simulation.mode == "Target", bool(cfg.detector.optical.enable), bool(cfg.detector.radio.enable), surv == 0)
-    except Exception as e:  # noqa: BLE001 - the regeneration has already reported it as a broken obligation
-        ctx.disagree("source_tie.ops", {"error": f"{type(e).__name__}: {str(e)[:200]}"})
-        return
-    want_groups = [w[1:].split(",") for w in want if w[0] == "C"]
-    want_keys = [w[1:] for w in want if w[0] == "M"]
-    up_front = set(d["init"]["keys"])
-    got_keys = [k for k in t.meta if k not in up_front and not any(k.startswith(p) for p in d["init"]["prefixes"])]
-    groups = _ADDED.get(id(t))
-    st["runs_compared"] += 1
-    ctx.count("source_tie.runs_compared")
-    bad = {}
-    if groups is not None and [c for g in groups for c in g] == list(t.colnames):
-        st["with_recorded_calls"] += 1
-        if groups != want_groups:
-            bad["add_columns_calls"] = {"recorded_from_the_run": groups, "read_from_the_source": want_groups}
-    elif list(t.colnames) != [c for g in want_groups for c in g]:
-        bad["columns"] = {"table": list(t.colnames), "read_from_the_source": [c for g in want_groups for c in g]}
-    if got_keys != want_keys:
-        bad["header_keys_added"] = {"table": got_keys, "read_from_the_source": want_keys}
-    if bad:
-        bad["run"] = label
-        st["differences"].append(bad)
-        ctx.disagree("source_tie.ops", bad)
-
-
-def source_tie_probe(ctx):
-    """every channel combination of both modes once, small: each run must come back (a run that raises is reported with its
-    configuration instead of cutting the check short) and its recorded writer calls are compared with the reader's account"""
-    for mode_ in ("Diffuse", "Target"):
-        for opt_, rad_ in ((True, True), (True, False), (False, True)):
-            cfgp = make_cfg(mode_, "mono", "none", opt_, rad_, 525.0, 40 if mode_ == "Diffuse" else 300)
-            lab = f"{mode_}/optical {'on' if opt_ else 'off'}/radio {'on' if rad_ else 'off'}"
-            try:
-                tp = run_compute(cfgp, 31, "synchronous")
-            except Exception as e:  # noqa
-                ctx.violation("compute", "raises", f"a {lab} run raises {type(e).__name__}: {str(e)[:100]}", {"run": lab, "seed": 31, "thrown": cfgp.simulation.thrown_events})
-                continue
-            ctx.case(("source-tie-probe", mode_, opt_, rad_)); ctx.count("source_tie.probe_runs")
-            check_structure(ctx, cfgp, tp, lab)
-
-
 def run(ctx: Ctx):
     import dask
-    source_tie_install()
-    source_tie_probe(ctx)
     xp = xproc_launch(ctx)   # (i) children run while the in-process streams do
+    op = opts_launch(ctx)    # (j) likewise
     corners(ctx)
     target_veto_runs(ctx)    # (h')
+    reuse_sequences(ctx)     # (l)
     rng = ctx.rng
     from xsched import make_get
     n = 120 if not ctx.thorough else 300
@@ -838,6 +1121,8 @@ def run(ctx: Ctx):
     ctx.count("zero_survivor_target_found", int(found))
     ctx.traces += len(combos)
     xproc_collect(ctx, xp)   # (i)
+    opts_collect(ctx, op)    # (j)
+    purity_flush(ctx)        # (k)
 
 
 def search(ctx: Ctx):
